@@ -10,25 +10,30 @@ Local Open Scope Z_scope.
 Inductive server : Type :=
 | Last (rows : list Z)
 | More (rows : list Z) (st : Z) (rest : server)
-| Fail (rest : server).     (* this request ends in an error delivered to the application (e.g. a read timeout the
+| Fail (rest : server)      (* this request ends in an error delivered to the application (e.g. a read timeout the
                                retry policy rethrows); the same request sent again is answered by `rest` *)
+| Spec (rest : server).     (* the speculative-execution timer of this page fetch fires the moment it is armed (inside
+                               start_fetching_next_page, before the regular request is sent): one more request for the
+                               same page; the first answer wins, the other is dropped (_set_final_result) *)
 
 Fixpoint all_rows (srv : server) : list Z :=
-  match srv with Last rs => rs | More rs _ rest => rs ++ all_rows rest | Fail rest => all_rows rest end.
+  match srv with Last rs => rs | More rs _ rest => rs ++ all_rows rest | Fail rest | Spec rest => all_rows rest end.
 Fixpoint states (srv : server) : list Z :=
-  match srv with Last _ => [] | More _ st rest => st :: states rest | Fail rest => states rest end.
+  match srv with Last _ => [] | More _ st rest => st :: states rest | Fail rest | Spec rest => states rest end.
 Fixpoint npages (srv : server) : nat :=
-  match srv with Last _ => 1%nat | More _ _ rest => S (npages rest) | Fail rest => npages rest end.
+  match srv with Last _ => 1%nat | More _ _ rest => S (npages rest) | Fail rest | Spec rest => npages rest end.
 Fixpoint pages (srv : server) : list (list Z) :=
-  match srv with Last rs => [rs] | More rs _ rest => rs :: pages rest | Fail rest => pages rest end.
+  match srv with Last rs => [rs] | More rs _ rest => rs :: pages rest | Fail rest | Spec rest => pages rest end.
 Fixpoint nfails (srv : server) : nat :=
-  match srv with Last _ => O | More _ _ rest => nfails rest | Fail rest => S (nfails rest) end.
+  match srv with Last _ => O | More _ _ rest | Spec rest => nfails rest | Fail rest => S (nfails rest) end.
+Fixpoint nspecs (srv : server) : nat :=
+  match srv with Last _ => O | More _ _ rest | Fail rest => nspecs rest | Spec rest => S (nspecs rest) end.
 (* the requests a client that simply repeats a failed request must send: `cur` is the paging state it holds *)
 Fixpoint expected_reqs (cur : option Z) (srv : server) : list (option Z) :=
   match srv with
   | Last _ => [cur]
   | More _ st rest => cur :: expected_reqs (Some st) rest
-  | Fail rest => cur :: expected_reqs cur rest
+  | Fail rest | Spec rest => cur :: expected_reqs cur rest
   end.
 
 (* ResponseFuture part: `more` = Some (st, srv): _paging_state = st and the server will answer the next request
@@ -54,18 +59,26 @@ Fixpoint init (srv : server) : rset * list out :=
   match srv with
   | Last rs => (mkRS rs None false None, [Req None])
   | More rs st rest => (mkRS rs None false (Some (st, rest)), [Req None])
-  | Fail rest => let '(s, o) := init rest in (s, Req None :: o)
+  | Fail rest | Spec rest => let '(s, o) := init rest in (s, Req None :: o)
   end.
 
 Definition has_more (s : rset) : bool := match more s with Some _ => true | None => false end.
 Definition paging_state (s : rset) : option Z := match more s with Some (st, _) => Some st | None => None end.
 
 (* fetch_next_page: start_fetching_next_page (message.paging_state := _paging_state; send) + result() *)
+(* start_fetching_next_page: message.paging_state := _paging_state; arm the timer [a speculative execution that fires
+   right there sends the message as it is]; send the regular request -- then result() *)
+Fixpoint fetch_srv (c : list Z) (i : option (list Z)) (lm : bool) (st : Z) (srv : server) : rset * list out * val :=
+  match srv with
+  | Last rs => (mkRS rs i lm None, [Req (Some st)], VNone)
+  | More rs st' rest => (mkRS rs i lm (Some (st', rest)), [Req (Some st)], VNone)
+  | Fail rest => (mkRS c i lm (Some (st, rest)), [Req (Some st)], VError)   (* result() raises; _paging_state is kept *)
+  | Spec rest => let '(s', o, v) := fetch_srv c i lm st rest in (s', Req (Some st) :: o, v)
+  end.
+
 Definition fetch (s : rset) : rset * list out * val :=
   match more s with
-  | Some (st, Last rs) => (mkRS rs (it s) (lmode s) None, [Req (Some st)], VNone)
-  | Some (st, More rs st' rest) => (mkRS rs (it s) (lmode s) (Some (st', rest)), [Req (Some st)], VNone)
-  | Some (st, Fail rest) => (mkRS (cur s) (it s) (lmode s) (Some (st, rest)), [Req (Some st)], VError)   (* result() raises; _paging_state is kept *)
+  | Some (st, srv) => fetch_srv (cur s) (it s) (lmode s) st srv
   | None => (mkRS [] (it s) (lmode s) None, [], VNone)
   end.
 
@@ -78,6 +91,7 @@ Fixpoint pull (lm : bool) (c : list Z) (st : Z) (srv : server) : rset * list out
   | More [] st' rest => let '(s', o, v) := pull lm [] st' rest in (s', Req (Some st) :: o, v)
   | More (r :: rs) st' rest => (mkRS (r :: rs) (Some rs) lm (Some (st', rest)), [Req (Some st)], VRow r)
   | Fail rest => (mkRS c (Some []) lm (Some (st, rest)), [Req (Some st)], VError)   (* fetch_next_page raised *)
+  | Spec rest => let '(s', o, v) := pull lm c st rest in (s', Req (Some st) :: o, v)
   end.
 
 Definition next (s : rset) : rset * list out * val :=
@@ -208,6 +222,87 @@ Fixpoint run_state (s : rset) (ops : list op) : rset * list out :=
 Fixpoint reqs (o : list out) : list (option Z) :=
   match o with [] => [] | Req st :: r => st :: reqs r | Ret _ :: r => reqs r end.
 
+(* ---------- continuous paging (DSE): the first response opens a ContinuousPagingSession; the server pushes the
+   remaining pages without being asked; _current_rows / _page_iter are ONE generator over the rows of all pages.
+   Not list mode (materialising turns the state into an ordinary list-mode rset). ---------- *)
+Record cstate : Type := mkCS {
+  gen : list Z;                 (* what the session generator has not produced yet (all pushed pages) *)
+  cit : bool;                   (* _page_iter is set (it is the same generator object as _current_rows) *)
+  cmore : option (Z * server)   (* _paging_state of the FIRST page (later pages never go through the future) *)
+}.
+Inductive anystate : Type := Paged (s : rset) | Cont (c : cstate).
+
+Definition init_cont (srv : server) : anystate * list out :=
+  let '(s0, o0) := init srv in (Cont (mkCS (all_rows srv) false (more s0)), o0).
+
+(* generator exhausted: `if not has_more_pages: _current_rows = []` (a list again); otherwise next(self._page_iter)
+   on the exhausted generator -- no page is fetched because a continuous session exists *)
+Definition cont_exhausted (c : cstate) : anystate :=
+  match cmore c with
+  | None => Paged (mkRS [] (Some []) false None)
+  | Some _ => Cont (mkCS [] true (cmore c))
+  end.
+
+Definition cont_op (o : op) : bool :=      (* calls that make sense on a continuous result and are modelled *)
+  match o with OFetch | OCurrent | OBool => false | _ => true end.
+
+Definition cstep (c : cstate) (o : op) : anystate * list out :=
+  match o with
+  | OIter => (Cont (mkCS (gen c) true (cmore c)), [Ret VSelf])
+  | ONext =>
+      if cit c then
+        match gen c with
+        | r :: l => (Cont (mkCS l true (cmore c)), [Ret (VRow r)])
+        | [] => (cont_exhausted c, [Ret VStop])
+        end
+      else (Cont c, [Ret VTypeError])
+  | OList => (cont_exhausted c, [Ret (VRows (gen c))])
+  | OOne =>                                  (* generator is not subscriptable: next(iter(...)) consumes a row *)
+      match gen c with
+      | r :: l => (Cont (mkCS l (cit c) (cmore c)), [Ret (VRow r)])
+      | [] => (Cont c, [Ret VStop])
+      end
+  | OHasMore => (Cont c, [Ret (VBool (match cmore c with Some _ => true | None => false end))])
+  | OPagingState => (Cont c, [Ret (VState (match cmore c with Some (st, _) => Some st | None => None end))])
+  | OGetItem i =>
+      if cit c then (Cont c, [Ret VRuntimeError])
+      else (Paged (mkRS (gen c) None true (cmore c)), [Ret (py_getitem (gen c) i)])
+  | OEq other =>
+      if cit c then (Cont c, [Ret VRuntimeError])
+      else (Paged (mkRS (gen c) None true (cmore c)), [Ret (VBool (zlist_eqb (gen c) other))])
+  | OFetch | OCurrent | OBool => (Cont c, [Ret VFuel])     (* not modelled (cont_op = false), never generated *)
+  end.
+
+Definition astep (a : anystate) (o : op) : anystate * list out :=
+  match a with
+  | Paged s => let '(s', outs) := step s o in (Paged s', outs)
+  | Cont c => cstep c o
+  end.
+
+Fixpoint arun_state (a : anystate) (ops : list op) : anystate * list out :=
+  match ops with
+  | [] => (a, [])
+  | o :: rest => let '(a', outs) := astep a o in let '(a'', outs') := arun_state a' rest in (a'', outs ++ outs')
+  end.
+
+(* list(result) right after execute() with continuous paging *)
+Definition iterate_cont (srv : server) : list out * list out :=
+  let '(a0, o0) := init_cont srv in (o0, snd (astep a0 OList)).
+
+(* observation: (_current_rows if it is a list, remaining _page_iter if over a list, _list_mode, _paging_state,
+   _current_rows is the session generator) *)
+Definition aobs (a : anystate) : (list Z * option (list Z) * bool * option Z) * bool :=
+  match a with
+  | Paged s => (obs s, false)
+  | Cont c => (([], if cit c then Some [] else None, false, match cmore c with Some (st, _) => Some st | None => None end), true)
+  end.
+
+Fixpoint arun (a : anystate) (ops : list op) : list (list out * ((list Z * option (list Z) * bool * option Z) * bool)) :=
+  match ops with
+  | [] => []
+  | o :: rest => let '(a', outs) := astep a o in (outs, aobs a') :: arun a' rest
+  end.
+
 (* the user-level readings of the statement *)
 (* iteration: list(result_set) right after execute() *)
 Definition iterate (srv : server) : list out * val :=
@@ -278,3 +373,17 @@ Definition check_case (srv : server) (ops : list op)
   (tr : list (list out * (list Z * option (list Z) * bool * option Z))) : bool :=
   let '(s0, o0) := init srv in
   outs_eqb o0 (fst init_obs) && obs_eqb (obs s0) (snd init_obs) && trace_eqb (run s0 ops) tr.
+
+Fixpoint atrace_eqb (a b : list (list out * ((list Z * option (list Z) * bool * option Z) * bool))) : bool :=
+  match a, b with
+  | [], [] => true
+  | (o1, (s1, g1)) :: a', (o2, (s2, g2)) :: b' => outs_eqb o1 o2 && obs_eqb s1 s2 && Bool.eqb g1 g2 && atrace_eqb a' b'
+  | _, _ => false
+  end.
+
+Definition check_case_cont (srv : server) (ops : list op)
+  (init_obs : list out * ((list Z * option (list Z) * bool * option Z) * bool))
+  (tr : list (list out * ((list Z * option (list Z) * bool * option Z) * bool))) : bool :=
+  let '(a0, o0) := init_cont srv in
+  outs_eqb o0 (fst init_obs) && obs_eqb (fst (aobs a0)) (fst (snd init_obs)) && Bool.eqb (snd (aobs a0)) (snd (snd init_obs))
+  && atrace_eqb (arun a0 ops) tr.
